@@ -50,6 +50,8 @@ func init() {
 			{ID: "C11-R24", Title: "a Config is applied to the VM as a whole", Floor: 3, Run: theConfigurationIsAppliedAsAWhole},
 			{ID: "C11-R25", Title: "a configuration edits only modules it owns", Floor: 1, Run: aConfigurationEditsOnlyModulesItOwns},
 			{ID: "C11-R26", Title: "mutex-guarded VM maps are copied, not aliased, into another VM (shared with C09-R5)", Floor: 2, Run: c09r5},
+			{ID: "C11-R27", Title: "defaults do not replace what the host gave (shared with C08-R33)", Floor: 1, Run: defaultsDoNotReplaceWhatTheHostGave},
+			{ID: "C11-R28", Title: "removals come last", Floor: 1, Run: removalsComeLast},
 		},
 	})
 }
@@ -424,8 +426,13 @@ func c11r4(c *core.Ctx) {
 		})
 	}
 	c.Check(guardOK, "..Config.init|once", posOf(p, fd), "init() returns at once when the configuration is already initialised (edits are applied exactly once)")
-	c.Check(strings.Join(order, ",") == "defaults,denylist,overrides", "..Config.init|edit-order", posOf(p, fd),
-		"init() inserts the default globals, then applies the deny-list, then the overrides (found: "+strings.Join(order, ", ")+"); a deny-list applied before the defaults removes nothing")
+	// The defaults come first and both edits after them: a deny-list (or an override) applied before the
+	// defaults are there edits nothing.  (Which of the two edits comes first is C11-R28's obligation; this rule
+	// used to demand deny-list before overrides, which is more than the property asks and the wrong way round
+	// for a module that is put in place of a default one.)
+	editOrderOK := len(order) == 3 && order[0] == "defaults" && ((order[1] == "denylist" && order[2] == "overrides") || (order[1] == "overrides" && order[2] == "denylist"))
+	c.Check(editOrderOK, "..Config.init|edit-order", posOf(p, fd),
+		"init() inserts the default globals first and applies the deny-list and the overrides after them (found: "+strings.Join(order, ", ")+"); an edit applied before the defaults are there edits nothing")
 	// the flag is set inside init
 	sets := false
 	ast.Inspect(fd.Body, func(n ast.Node) bool {
